@@ -33,3 +33,9 @@ chk('C01', 'exploration',
     'An independent tokenizer is the oracle for content, format()+re-read for the round trip, and stream equality across sources for chunking independence.',
     'Trusted: vlib/ref_token.py; short reads are taken to be legal for a text stream (io.TextIOBase.read contract).',
     'reference-model monitor + metamorphic comparison across logged read chunkings', 'DESIGN.md 5 C01')
+chk('C16', 'exploration',
+    'Invariants evaluated over the live objects after real loading of every shipped map file in both loading modes, node by node (about 30 000 nodes): definedness of data elements and code sets, '
+    'well-formedness of usage/limits/positions/notes, sibling distinguishability, self-addressability through getnodebypath/getnodebypath2, path uniqueness, and structural equality with an '
+    'independent reading of the XML. The configuration space is finite and enumerated completely (exhaustive: true); genuine data defects found are listed in known_findings.json by mechanism key.',
+    'Trusted: vlib/refmap.py (plain ElementTree reading of the same XML) and the qualifier rules in quals_of().',
+    'invariants at quiescent points over live map objects, exhaustive', 'DESIGN.md 5 C16')
